@@ -161,3 +161,7 @@ package helpers
 //@   opt auto-counters 1
 //@   prop C16
 
+
+// C01 (string values survive): UTF16EncodeCodePoint (ECMA-262 11.1.1): one unit iff the code point is <= 0xFFFF.
+//@ guarded single-unit-only-for-bmp C01: func=StringToUTF16 ; in=helpers ; site=convert next(text)#2 ; scenario=escape_uffff_roundtrip ; require-any=true:*<=65535 || true:*<65536
+//@ guarded surrogate-pair-only-beyond-bmp C01: func=StringToUTF16 ; in=helpers ; site=convert 55296+* ; scenario=escape_uffff_roundtrip ; require-any=false:*<=65535 || false:*<65536 || true:*>65535 || true:*>=65536
